@@ -221,6 +221,9 @@ class Impl:
             self.eo = Evolvent(lo, hi, n, m)
             self.eo_vis = [lo, hi]
             return "ok"
+        if c == "eo.arri":
+            self.eo_vis.append(np.array([int(h2f(v)) for v in t[1:]], dtype=np.int64))
+            return str(len(self.eo_vis) - 1)
         if c == "eo.arr":
             self.eo_vis.append(np.array([h2f(v) for v in t[1:]], dtype=np.double))
             return str(len(self.eo_vis) - 1)
